@@ -50,6 +50,16 @@ func init() {
 		"(reflect.Value).NumMethod":       ext۰reflect۰Value۰NumMethod,
 		"(reflect.Value).Pointer":         ext۰reflect۰Value۰Pointer,
 		"(reflect.Value).Set":             ext۰reflect۰Value۰Set,
+		"(reflect.Value).SetInt":          ext۰reflect۰Value۰SetInt,
+		"(reflect.Value).SetUint":         ext۰reflect۰Value۰SetUint,
+		"(reflect.Value).SetFloat":        ext۰reflect۰Value۰SetFloat,
+		"(reflect.Value).SetBool":         ext۰reflect۰Value۰SetBool,
+		"(reflect.Value).SetString":       ext۰reflect۰Value۰SetString,
+		"(reflect.Value).CanSet":          ext۰reflect۰Value۰CanAddr,
+		"(reflect.rtype).AssignableTo":    ext۰reflect۰rtype۰AssignableTo,
+		"(reflect.rtype).ConvertibleTo":   ext۰reflect۰rtype۰ConvertibleTo,
+		"(reflect.rtype).Name":            ext۰reflect۰rtype۰Name,
+		"(reflect.rtype).Key":             ext۰reflect۰rtype۰Key,
 		"(reflect.Value).String":          ext۰reflect۰Value۰String,
 		"(reflect.Value).Type":            ext۰reflect۰Value۰Type,
 		"(reflect.Value).Uint":            ext۰reflect۰Value۰Uint,
